@@ -1,6 +1,6 @@
 From Coq Require Import ZArith List Bool Reals Lra.
 From Flocq Require Import Core BinarySingleNaN.
-Require Import GV.FloatBase GV.FloatLemmas GV.AngleM GV.AngleProofs GV.GeonumM GV.GeonumProofs GV.TraitsM GV.NewProofs GV.CtorProofs GV.PiBounds GV.TrigProofs GV.DotValue GV.DistValue.
+Require Import GV.FloatBase GV.FloatLemmas GV.AngleM GV.AngleProofs GV.GeonumM GV.GeonumProofs GV.TraitsM GV.NewProofs GV.CtorProofs GV.PiBounds GV.TrigProofs GV.DotValue GV.DistValue GV.ClosureProofs GV.SumUpper GV.DirProofs GV.SumDir.
 Open Scope R_scope.
 Require Import GV.Properties.C06.
 Check C06_sub_is_add_neg : forall (L : libm) a b,
@@ -38,3 +38,37 @@ Check C06_mag_value : forall (L : libm) (u : R) a b, cos_acc L u -> u <= / 1000 
   Rabs (R_ (mag (gadd_vv L a b)) - sqrt D)
     <= sqrt Bnd * (1 + / 9007199254740992) + / 9007199254740992 * sqrt D + bpow radix2 (-1075).
 Print Assumptions C06_mag_value.
+Check C06_atan2_acc_def : forall (L : libm) (u2 : R), atan2_acc L u2 <->
+  (forall y x, fin y -> fin x ->
+    fin (atan2F L y x) /\ Rabs (R_ (atan2F L y x)) <= R_ PI /\
+    exists theta, Rabs (R_ (atan2F L y x) - theta) <= u2 /\
+      R_ x = sqrt (R_ x * R_ x + R_ y * R_ y) * cos theta /\
+      R_ y = sqrt (R_ x * R_ x + R_ y * R_ y) * sin theta).
+Print Assumptions C06_atan2_acc_def.
+Check C06_reencode_direction : forall (at_ : F) n, fin at_ -> Rabs (R_ at_) <= R_ PI -> (0 <= n < 2 ^ 40)%Z ->
+  let r := new_with_blade n (fsub at_ (fdiv (fmul (of_Z n) PI) two)) PI in
+  canonp (rem r) /\ (n <= blade r <= n + 4)%Z /\
+  exists J : Z, (0 <= J)%Z /\
+    Rabs (dirR r - (R_ at_ + 2 * Rtrigo1.PI * IZR J))
+      <= R_ eps10 + 3 / 100000000000000 + IZR n * (4 / 1000000000000000).
+Print Assumptions C06_reencode_direction.
+Check C06_cartesian : forall (L : libm) (u u2 : R) a b, cos_acc L u -> sin_acc L u -> atan2_acc L u2 -> u <= / 1000 ->
+  canonp (rem (ang a)) -> canonp (rem (ang b)) ->
+  aeqb (ang a) (ang b) = false ->
+  aeqb (add_vv (ang a) (new one one)) (ang b) || aeqb (add_vv (ang b) (new one one)) (ang a) = false ->
+  (0 <= blade (ang a) + blade (ang b) < 2 ^ 40)%Z ->
+  fin (gadd_rad L a b) ->
+  fin (fadd (fmul (mag a) (sinF L (grade_angle (ang a)))) (fmul (mag b) (sinF L (grade_angle (ang b))))) ->
+  fin (fadd (fmul (mag a) (cosF L (grade_angle (ang a)))) (fmul (mag b) (cosF L (grade_angle (ang b))))) ->
+  let r := gadd_vv L a b in
+  let Vx := R_ (mag a) * cos (dir (ang a)) + R_ (mag b) * cos (dir (ang b)) in
+  let Vy := R_ (mag a) * sin (dir (ang a)) + R_ (mag b) * sin (dir (ang b)) in
+  let M := Rabs (R_ (mag a)) + Rabs (R_ (mag b)) in
+  let E := M * (u + 3 / 1000000000000000) + 4 * bpow radix2 (-1075) in
+  let S := R_ (mag a) * R_ (mag a) + R_ (mag b) * R_ (mag b) in
+  let Bnd := S * (u + 1 / 100000000000000) + 10 * bpow radix2 (-1075) in
+  let tolN := R_ eps10 + 3 / 100000000000000 + IZR (blade (ang a) + blade (ang b)) * (4 / 1000000000000000) in
+  let T := sqrt Bnd * (1 + / 9007199254740992) + / 9007199254740992 * sqrt (Vx * Vx + Vy * Vy) + bpow radix2 (-1075)
+           + 3 * E + (M + 2 * E) * (u2 + tolN) in
+  Rabs (R_ (mag r) * cos (dirR (ang r)) - Vx) <= T /\ Rabs (R_ (mag r) * sin (dirR (ang r)) - Vy) <= T.
+Print Assumptions C06_cartesian.
